@@ -2597,7 +2597,7 @@ hwloc__xml_v2export_object (hwloc__xml_export_state_t parentstate, hwloc_topolog
     struct hwloc__xml_export_state_s _childstate; \
     (state)->new_child(state, &_childstate, tagname); \
     for(_j=0; \
-	_i+_j<(nr) && _j<maxperline; \
+	_i+_j<(nr) && _j<maxperline && _len+32<=sizeof(_tmp); \
 	_j++) \
       _len += sprintf(_tmp+_len, "%s:%llu ", hwloc_obj_type_string((objs)[_i+_j]->type), (unsigned long long) (objs)[_i+_j]->gp_index); \
     _i += _j; \
